@@ -1,6 +1,8 @@
 package checks
 
 import (
+	"os"
+	"strings"
 	"bytes"
 	"encoding/json"
 	"fmt"
@@ -25,6 +27,10 @@ type c12Case struct {
 	Stream Bin        `json:"stream"`
 	Cuts   []int      `json:"cuts,omitempty"`
 	Pause  int        `json:"pause_us,omitempty"`
+	// Unread > 0: before the stream, the offender asks for this many 256 KB values and does not read them (receive
+	// buffer 64 KiB; only with streams that end in an offence): when the proxy closes it, replies are still waiting in the proxy's buffers for a peer that is
+	// alive but not reading. The offender starts reading 50 ms after its last byte.
+	Unread int `json:"unread_big_replies,omitempty"`
 }
 
 var c12Hostile = []string{
@@ -158,6 +164,9 @@ func c12Gen(t *rapid.T) c12Case {
 	if len(stream) == 0 {
 		stream = []byte("\r\n")
 	}
+	if c.Cfg.BufCap == 0 && rapid.IntRange(0, 15).Draw(t, "unread") == 0 {
+		c.Unread = rapid.IntRange(24, 48).Draw(t, "nunread")
+	}
 	c.Stream = stream
 	c.Cuts = genCuts(len(stream)).Draw(t, "cuts")
 	if len(c.Cuts) > 0 {
@@ -258,13 +267,46 @@ func c12Run(f *Fixture, c *c12Case) []Discrepancy {
 	f.Cluster.ResetLog()
 	f.Cluster.SetHandler(nil)
 	by := startBystander(f, f.Nonce())
-	cl, err := rclient.Dial(f.Proxy.Addr(), "")
+	var cl *rclient.Client
+	var err error
+	unreadProbe := false
+	if c.Unread > 0 && (rest == refmodel.ReqProtoError || rest == refmodel.ReqInline) {
+		big := refmodel.Bulk(bytes.Repeat([]byte("unread-"), 256*1024/7))
+		f.Cluster.SetHandler(func(req *fakecluster.Request) fakecluster.Action {
+			if strings.Contains(req.Key(1), "}unread") {
+				return fakecluster.Action{Reply: big}
+			}
+			return fakecluster.EchoHandler(req)
+		})
+		defer f.Cluster.SetHandler(nil)
+		cl, err = rclient.DialNoRead(f.Proxy.Addr(), 65536)
+		if err == nil {
+			var asks []byte
+			for i := 0; i < c.Unread; i++ {
+				asks = append(asks, refmodel.EncodeCmdS("get", refmodel.KeyInSlot(defaultSlots[i%3*5], fmt.Sprintf("unread%d", i)))...)
+			}
+			cl.Write(asks)
+			time.Sleep(400 * time.Millisecond) // the backends have answered; the replies sit in the proxy
+			reqs, rest, off, why = refmodel.ScanStream(append(append([]byte{}, asks...), c.Stream...))
+			unreadProbe = true
+		}
+	} else {
+		cl, err = rclient.Dial(f.Proxy.Addr(), "")
+	}
 	if err != nil {
 		by.finish()
 		return append(f.checkAlive("C12", nil), disc("C12/cannot-connect", "cannot connect: %v", err))
 	}
 	werr := cl.WriteChunks(c.Stream, c.Cuts, time.Duration(c.Pause)*time.Microsecond)
 	_ = werr // the proxy may close while we are still writing: that is one of the allowed outcomes
+	if unreadProbe {
+		// the offender is alive but still not reading: everybody else must be served meanwhile
+		time.Sleep(300 * time.Millisecond)
+		if err := f.Witness(8 * time.Second); err != nil {
+			ds = append(ds, disc("C12/bystander-disturbed", "while the proxy was closing an offender that had not read %d big replies and still was not reading, a fresh client was not served within 8 s: %v (offender sent %s after the unread requests)", c.Unread, err, q(c.Stream)))
+		}
+		cl.StartReading()
+	}
 
 	offending := rest == refmodel.ReqProtoError || rest == refmodel.ReqInline
 	resolved := func() (bool, string) {
@@ -319,6 +361,10 @@ func c12Run(f *Fixture, c *c12Case) []Discrepancy {
 				ds = append(ds, disc("C12/valid-stream-miscounted", "a valid stream of %d complete requests (remainder: %d bytes, a proper prefix) got %d replies, eof=%v; stream %s", want, len(c.Stream)-off, len(st.Replies), st.EOF, q(c.Stream)))
 			}
 		}
+	}
+	if os.Getenv("VERIF_DUMP_LOG") != "" {
+		st := cl.Snapshot()
+		fmt.Printf("    offender: %d bytes received, %d replies, eof=%v badresp=%v\n", st.Total, len(st.Replies), st.EOF, st.BadResp)
 	}
 	cl.Close()
 	time.Sleep(2 * time.Millisecond)
